@@ -615,8 +615,8 @@ MUTANTS = [
          new="	if left_name is None:\n		# Case B: left unnamed, right named\n		return (right_name, \"right-named-left-unnamed\")", rules=["d.table-table"]),
     dict(id="binary-name-falsy", module=_T, old="	if right_name is None or right_name == left_name:", new="	if not right_name or right_name == left_name:",
          rules=["d.table-table"]),
-    dict(id="aggregate-key-bypasses-uniquify", module=_T, old="			result_cols.append(Vector(values, name=uniquify(col._name if col._name is not None else \"key\")))",
-         new="			result_cols.append(Vector(values, name=col._name if col._name is not None else \"key\"))", rules=["g.aggregate-window"]),
+    dict(id="aggregate-key-bypasses-uniquify", module=_T, old="				key_name = uniquify(col._name if col._name is not None else \"key\")\n			result_cols.append(Vector(values, name=key_name))",
+         new="				key_name = col._name if col._name is not None else \"key\"\n			result_cols.append(Vector(values, name=key_name))", rules=["g.aggregate-window"]),
     dict(id="aggregate-key-name-falsy", module=_T, count=2, nth=0, old="col._name if col._name is not None else \"key\"", new="col._name or \"key\"",
          rules=["g.aggregate-window"], desc="a key column named '' is renamed to 'key' (and pushes a real 'key' column to 'key2')"),
     dict(id="twin-key-name-none-first", module=_T, twin=True, count=2, nth=0, old="col._name if col._name is not None else \"key\"",
